@@ -517,7 +517,11 @@ def run(ctx):
         ctx.violation("C05 fails on the implementation (shachain): " + f["kind"], {"broken": broken, "failing_input": f,
                       "replay_cmd": "printf '%%s\\n' '<replay_line>' | %s" % ctx.bin_path("h_shachain")}, True, key="shachain:" + f["kind"])
     if rres is not None:
-        for f in rres.get("judge_fails", [])[:3]:
+        jf = rres.get("judge_fails", [])
+        # known findings are reported (once each) but neither count as a found input nor use up the budget
+        for f in [f for f in jf if f.get("key") in _c05_revoke.KNOWN][:4]:
+            ctx.violation("C05 fails on the implementation: " + f["why"], {"failing_input": f}, True, key=f["key"])
+        for f in [f for f in jf if f.get("key") not in _c05_revoke.KNOWN][:3]:
             found = True
             k = f.get("key", f["why"])
             ctx.violation("C05 fails on the implementation: " + f["why"], {"broken": broken, "failing_input": f,
